@@ -464,7 +464,7 @@ def run(ctx):
     # 4. binding self-test and structure census (vacuity guards)
     selftest(ctx, first["recs"], first["rej"])
     for need in ("empty_bins", "one_member_bins", "multi_member_bins", "merged_last_bins", "short_last_bins", "tied_values",
-                 "rejected_no_data"):
+                 "rejected_no_data", "large_offset_records", "large_offset_interval_records"):
         # the census is taken from what the code returned: only meaningful (and only enforced) on a run without violations
         if not census.get(need) and not ctx.violations:
             raise MachineryError("vacuous run: no case with %s (%s)" % (need, census))
@@ -507,6 +507,10 @@ def structure_census(recs, cen):
         c = r["c"]
         if len(set(c["x"])) < len(c["x"]):
             add("tied_values")
+        if r["conc"] >= NBASE:
+            add("large_offset_records")
+            if any(rr["k"] == "ivl" for u in r["runs"] for rr in u["o"]["var"] + u["o"]["yvar"]):
+                add("large_offset_interval_records")
         o = r["runs"][0]["o"]
         if o["err"] != "none":
             add("rejected_no_data")
